@@ -352,6 +352,78 @@ def run(ctx):
             ctx.ok('C20.5-proplist-writers', inst, 'entries are written as tuples / passed on whole', ctx.where(WB))
     ctx.anchor(n_pw >= 1, 'element-producing bodies of the proplist writers (map_to_proplist::{closure#0})')
 
+    # to the term go the fields as they are
+    ctx.rule('C20.1-fields-written-raw', 'every number a wrapper writes into its term is a field of the value being converted, as it is (widened at most): a number taken from a copy that went through a constructor '
+             'or a normalising helper (`to_time()`, `min`, `clamp`) comes back as another value than went in - or turns an out-of-range value into a plausible one', floor=10)
+    n_fw = 0
+    for q in sorted(ctx.F.bodies):
+        if not (q.startswith('edp_elixir_terms::') and '<impl core::convert::From<edp_elixir_terms::' in q and 'for erltf::term::OwnedTerm>::from' in q) or ctx.F.bodies[q]['kind'] not in ('Fn', 'AssocFn'):
+            continue
+        WB = P.B(q)
+        wname = q.split('From<')[1].split('>')[0].rsplit('::', 1)[-1]
+        k = 0
+        for bb, j, st in WB.stmts():
+            if not (st['k'] == '=' and st['rv']['k'] == 'agg' and st['rv'].get('var') == 'Integer' and str(st['rv'].get('adt', '')).endswith('OwnedTerm') and bb in WB.live_blocks()):
+                continue
+            o = WB.origin(st['rv']['ops'][0])
+            via = None
+            for _ in range(8):
+                if o is None:
+                    break
+                if o[0] == 'cast':
+                    o = o[3]
+                elif o[0] == 'call' and isinstance(o[1], str) and o[1].endswith('::from') and 'core::convert::From<' in o[1]:
+                    t_ = WB.blocks[o[2]]['t']
+                    o = WB.origin(t_['args'][0]) if t_['args'] else None
+                elif o[0] == 'proj':
+                    o = o[1]
+                elif o[0] in ('payload', 'try', 'awaited', 'awaited_value'):
+                    o = o[1]
+                else:
+                    break
+            if o is not None and o[0] == 'call':
+                via = str(o[1])
+            k += 1
+            n_fw += 1
+            inst = '%s:int#%d' % (wname, k)
+            if via and not via.endswith('::clone') and not via.endswith('::len'):
+                ctx.bad('C20.1-fields-written-raw', inst, 'a number written into the term of %s is taken from the result of %s, not from the field of the value itself: what comes back from the term is that function\'s idea of the value'
+                        % (wname, via.rsplit('::', 2)[-2] + '::' + via.rsplit('::', 1)[-1] if '::' in via else via), ctx.where(WB, bb), key='PROV:%s:field-through-%s' % (q.split('::<impl')[0] + '::' + wname, via.rsplit('::', 1)[-1]))
+            else:
+                ctx.ok('C20.1-fields-written-raw', inst, 'a field of the value (or a constant)', ctx.where(WB, bb))
+    ctx.anchor(n_fw >= 10, 'integers written by the wrappers\' From<T> for OwnedTerm')
+
+    # ... and a field that holds an arbitrary term is read back whatever term it is
+    ctx.rule('C20.1-term-fields-read-as-they-are', 'a field of a wrapper whose type is the term type itself (the value a MatchError / KeyError / BadMapError carries) is filled by from_term with whatever term the map holds: '
+             'nothing on the way from the map lookup to the field tests or filters the value (`filter(|t| !t.is_nil_atom())` makes `%MatchError{term: nil}` unreadable)', floor=5)
+    from ..core import value_path as _vp20
+    n_tf = 0
+    for q in sorted(ctx.F.bodies):
+        if not (q.startswith('edp_elixir_terms::') and q.endswith('::from_term')) or ctx.F.bodies[q]['kind'] not in ('Fn', 'AssocFn'):
+            continue
+        TB = P.B(q)
+        for bb, j, st in TB.stmts():
+            rv = st['rv'] if st['k'] == '=' else None
+            if rv is None or rv['k'] != 'agg' or not str(rv.get('adt', '')).startswith('edp_elixir_terms::') or bb not in TB.live_blocks():
+                continue
+            ad = ctx.F.adts.get(rv['adt'])
+            if not ad:
+                continue
+            ftys = {f['n']: f['ty'] for v in ad['variants'] for f in v['fields']}
+            for fnm, op in zip(rv.get('fn') or [], rv.get('ops') or []):
+                if ftys.get(fnm) != 'erltf::term::OwnedTerm':
+                    continue
+                n_tf += 1
+                path = [x for x in _vp20(TB, op) if isinstance(x, str)]
+                tests = [x for x in path if x.rsplit('::', 1)[-1] in ('filter', 'take_if', 'is_nil_atom', 'is_nil', 'is_undefined', 'then_some', 'filter_map', 'and_then') and 'Try' not in x]
+                inst = '%s.%s' % (rv['adt'].rsplit('::', 1)[-1], fnm)
+                if tests:
+                    ctx.bad('C20.1-term-fields-read-as-they-are', inst, 'the term carried in %s passes through %s on its way out of the map: some terms (the atom nil) are then "absent", and a value that was written cannot be read back'
+                            % (inst, tests[0].rsplit('::', 2)[-2] + '::' + tests[0].rsplit('::', 1)[-1]), ctx.where(TB, bb), key='PROV:%s:%s:filtered' % (q, fnm))
+                else:
+                    ctx.ok('C20.1-term-fields-read-as-they-are', inst, 'the looked-up term, cloned', ctx.where(TB, bb))
+    ctx.anchor(n_tf >= 5, 'wrapper fields of the term type filled by from_term')
+
     # dependency: Atom::new
     ctx.rule('C20.1-atom-interning', 'map keys and atom values of the wrappers and proplist helpers are built and looked up with Atom::new: its interning tables agree entry by entry', floor=1)
     from ..etf import check_atom_tables
